@@ -69,12 +69,16 @@ def main(seed, ncases, driver, out, mode="all"):
     for c in range(ncases):
         if skip(c): continue
         rnd = case_rnd(seed, c); P = gen(rnd, mode == "nh"); N = P["N"]; R, L = P["R"], P["L"]; herm = P["herm"]
-        H = {(0,): sparse.csr_array(P["H0"]), (1,): sparse.csr_array(P["H1"])}
-        if P["H2"] is not None: H[(2,)] = sparse.csr_array(P["H2"])
+        # carriers: sparse arrays, or the dense arrays themselves (then also: the caller's arrays must come back unchanged)
+        dense_in = rnd.random() < 0.3
+        conv = (lambda m: np.array(m if np.abs(np.asarray(m).imag).max() > 0 else np.asarray(m).real)) if dense_in else sparse.csr_array
+        H = {(0,): conv(P["H0"]), (1,): conv(P["H1"])}
+        if P["H2"] is not None: H[(2,)] = conv(P["H2"])
+        before = {n: (m.tobytes() if dense_in else (m.data.tobytes(), m.indices.tobytes(), m.indptr.tobytes())) for n, m in H.items()}
         rest = list(range(P["dA"], N))
         def basis(idx): return R[:, idx] if herm else (R[:, idx], L[:, idx])
         vecsA = [basis(p) for p in P["parts"]]
-        key = f"{P['solver']} hermitian={herm} complex={P['cplx']} explicit={len(P['parts'])} degeneracy={P['pattern']} fd={bool(P['fd'])}"
+        key = f"{'dense' if dense_in else 'sparse'} {P['solver']} hermitian={herm} complex={P['cplx']} explicit={len(P['parts'])} degeneracy={P['pattern']} fd={bool(P['fd'])}"
         dist[key] = dist.get(key, 0) + 1
         desc = {"case": c, "seed": seed, "N": N, "dA": P["dA"], "parts": P["parts"], "complex": P["cplx"], "hermitian": herm, "fd": list(P["fd"]),
                 "solver": P["solver"], "explicit_energies": [complex(P["ev"][a]).real for a in sum(P["parts"], [])]}
@@ -113,6 +117,8 @@ def main(seed, ncases, driver, out, mode="all"):
                     cmp("U", dense(Ui[nb, nb, n], (N, N)), RB @ dense(Ue[nb, nb, n], (nr, nr)) @ LB.conj().T, n, [nb, nb])
                     cmp("U_inv", dense(Vi[nb, nb, n], (N, N)), RB @ dense(Ve[nb, nb, n], (nr, nr)) @ LB.conj().T, n, [nb, nb])
             distinct += 1
+            after = {n: (m.tobytes() if dense_in else (m.data.tobytes(), m.indices.tobytes(), m.indptr.tobytes())) for n, m in H.items()}
+            if after != before: failures.append(dict(desc, kind="caller-data-mutated", terms=[list(n) for n in H if after[n] != before[n]], dense=dense_in))
             if bad: failures.append(dict(desc, kind="implicit-differs-from-explicit", **bad))
         except Exception as e:
             failures.append(dict(desc, kind="implementation-raises", error=type(e).__name__ + ": " + str(e)[:150]))
